@@ -21,12 +21,12 @@ import vlib
 LEVEL = "model_checking"
 MANIFEST = dict(cat=LEVEL, ref="DESIGN.md 3.9, 6 (C08)",
     tech="TLA+ spec Txn.tla: snapshot-isolation reference and implementation-shaped in-place/undo-list model side by side, explored by TLC (per-transition emission + -simulate walks); every interleaving rendered to SQL on cloned handles and replayed on TurDB, judged against both models",
-    text="(plus an insert-focused exhaustive exploration, Gen_Txn_inserts.cfg: BEGIN/COMMIT/ROLLBACK/INSERT/read only, 6 (quick) / 7 (thorough) statements, every behaviour replayed) TLC explores every interleaving of 2 cloned handles x {BEGIN, COMMIT, ROLLBACK, drop handle, INSERT, UPDATE, DELETE, SELECT} up to 4 (quick) / 5 (thorough) statements from two initial configurations (autocommit, both handles inside a transaction) plus random walks of 10 steps; invariants on the reference (no dirty read, own writes visible, no lost update, sequential when autocommit-only, serial with one handle) are model-checked; each explored transition is executed on TurDB and its result and the resulting table must equal the reference, or - where the two models differ - the implementation-shaped model, in which case the spec-named anomaly is reported as a known finding",
+    text="(plus three cloned handles: every interleaving of 3 (quick) / 4 (thorough) statements; plus an insert-focused exhaustive exploration, Gen_Txn_inserts.cfg: BEGIN/COMMIT/ROLLBACK/INSERT/read only, 6 (quick) / 7 (thorough) statements, every behaviour replayed) TLC explores every interleaving of 2 cloned handles x {BEGIN, COMMIT, ROLLBACK, drop handle, INSERT, UPDATE, DELETE, SELECT} up to 4 (quick) / 5 (thorough) statements from two initial configurations (autocommit, both handles inside a transaction) plus random walks of 10 steps; invariants on the reference (no dirty read, own writes visible, no lost update, sequential when autocommit-only, serial with one handle) are model-checked; each explored transition is executed on TurDB and its result and the resulting table must equal the reference, or - where the two models differ - the implementation-shaped model, in which case the spec-named anomaly is reported as a known finding",
     note="statements are atomic steps issued from one thread (no preemptive multi-threaded SQL; thread-level races are decided on the components C35-C39); table without declared keys so that every statement is a scan (index interplay with foreign undo is not modelled); 2 handles, 2 ids, <=4 row keys")
 
 PRELUDE = [{"k": "exec", "sql": "CREATE TABLE t (id INT, v INT)", "h": 0},
            {"k": "exec", "sql": "INSERT INTO t VALUES (1, 1)", "h": 0},
-           {"k": "clone", "h": 1}, {"k": "clone", "h": 2}]
+           {"k": "clone", "h": 1}, {"k": "clone", "h": 2}, {"k": "clone", "h": 3}]
 SCAN = {"k": "query", "sql": "SELECT id, v FROM t", "h": 0}
 
 
@@ -56,7 +56,7 @@ def op_ops(st):
 
 
 def describe(c):
-    out = ["[both handles BEGIN]"] if c["start"] == "both_in_txn" else []
+    out = ["[%s handles BEGIN]" % ("both" if c.get("nh", 2) == 2 else "all %d" % c["nh"])] if c["start"] == "both_in_txn" else []
     for st in c["hist"]:
         o = op_ops(st)[0]
         out.append("h%d: %s" % (st["h"], o.get("sql", st["op"])))
@@ -66,7 +66,7 @@ def describe(c):
 def render(cid, c):
     ops = list(PRELUDE)
     if c["start"] == "both_in_txn":
-        ops += [{"k": "exec", "sql": "BEGIN", "h": 1}, {"k": "exec", "sql": "BEGIN", "h": 2}]
+        ops += [{"k": "exec", "sql": "BEGIN", "h": h} for h in range(1, c.get("nh", 2) + 1)]      # every handle of the configuration
     marks = []
     for st in c["hist"]:
         at = len(ops)
@@ -221,9 +221,19 @@ def run(chk):
     if not thorough:
         cases = vlib.stratified_sample(cases, class_key, 6000, rng)
     ins_cases, istats = gen_inserts(chk, 7 if thorough else 6); chk.mark("tlc_gen_inserts")
+    # three cloned handles (the property names two or three): every interleaving of 3 (thorough: 4) statements
+    cfg3 = vlib.scratch() + "/GenTxn3.cfg"
+    open(cfg3, "w").write(open(os.path.join(vlib.SPEC, "Gen_Txn.cfg")).read().replace("Handles = {0, 1}", "Handles = {0, 1, 2}").replace("MaxOps = 4", "MaxOps = %d" % (4 if thorough else 3)))
+    g3 = vlib.tlc_emit("MC_Txn.tla", cfg3, timeout=2400)
+    for inv in g3["violated"]:
+        raise vlib.ToolError("Txn.tla (three handles) violates its own invariant %s" % inv)
+    three = vlib.stratified_sample(g3["emitted"], class_key, 60000 if thorough else 3000, rng)
+    for c in three:
+        c["nh"] = 3
+    chk.mark("tlc_gen_three_handles")
     if thorough:
         ins_cases = vlib.stratified_sample(ins_cases, lambda c: (class_key(c), tuple((h["op"], h["h"]) for h in c["hist"][-4:])), 150000, rng)
-    results = execute(cases + walks + ins_cases); chk.mark("replay")
+    results = execute(cases + walks + ins_cases + three); chk.mark("replay")
     stats, classes, conform_by_op = account(chk, results)
     n = len(results)
     if stats["prefix"] > 0.2 * n:
@@ -234,7 +244,7 @@ def run(chk):
     if not need <= gen_classes:
         raise vlib.ToolError("generated behaviours miss anomaly classes %s" % sorted(need - gen_classes))
     chk.cov = {"states": tstats.get("distinct", 0), "transitions": tstats.get("generated", 0), "traces_validated_against_impl": n,
-               "behaviours_generated_by_tlc": total, "behaviours_replayed": len(cases), "random_walk_steps_replayed": len(walks), "insert_focused_behaviours_replayed": len(ins_cases),
+               "behaviours_generated_by_tlc": total, "behaviours_replayed": len(cases), "random_walk_steps_replayed": len(walks), "three_handle_behaviours_replayed": len(three), "insert_focused_behaviours_replayed": len(ins_cases),
                "insert_focused_model": {"states": istats.get("distinct", 0), "transitions": istats.get("generated", 0), "max_ops": 7 if thorough else 6},
                "verdicts": stats, "anomaly_classes_observed": classes, "conforming_steps_by_op": conform_by_op,
                "model_invariants_checked": ["SequentialWhenAutocommit", "SerialWhenAlone", "OwnWritesVisible", "RefNoDirtyRead", "RefNoLostUpdate"],
